@@ -6,13 +6,41 @@ import vlib
 META = {
     'engine': 'lean-D',
     'technique': 'Lean 4 inductive invariants over a small-step model of fibre.c in which every main-context call is split at its atomic operations and interrupt / nested-interrupt / '
-                 'thread senders (instances of C04\'s message-queue interleaving model, so mq_inv is inherited for both queues) may step at every gap; model and abstract monitor tied to the '
-                 'unmodified fibre.c + messageq.c + list.c by a deterministic single-threaded harness that runs scripted interrupt calls in place at every atomic point (include-path stdatomic.h shim)',
-    'level_text': 'TBD',
-    'level_note': 'TBD',
+                 'thread senders (instances of C04\'s message-queue interleaving model, so mq_inv is inherited for both queues) may step at every gap; model and an abstract monitor written from the '
+                 'property text are tied to the unmodified fibre.c + messageq.c + list.c by a deterministic single-threaded harness that runs scripted interrupt calls in place at every atomic point '
+                 '(include-path stdatomic.h shim, ASan)',
+    'level_text': 'Proved (kernel-only, induction over steps - no bound on histories, on the number or placement of interrupts) for EVERY state reachable by ANY interleaving of the main context\'s steps '
+                  '(fibre_scheduler_next / fibre_run / fibre_kill / the canonical handler\'s receive+release, split at each atomic operation with the plain code between them) with the steps of an interrupt '
+                  'handler, a handler nested inside it and a sender on another thread (fibre_run_atomic; claim+stamp+fibre_eventq_send): '
+                  'accepted_never_lost - every fibre with an accepted, not since dispatched or killed request is the payload of a committed unreceived entry of the atomic queue, or on the run queue, or held by '
+                  'the drain loop between receive and make_runnable; queues_not_corrupted - run queue and timer queue duplicate free and disjoint at every gap (C04\'s mq_inv for both message queues, and every '
+                  'context\'s control location consistent with its pc inside the queues); drained_by_pass - when a drain loop receives NULL every entry the call received has its fibre on the run queue, and with '
+                  'handlers run to completion nothing is left (received = claimed); fast path only taken with the atomic queue empty; events_exactly_once_in_order - the stamps the handler read are the recorded '
+                  'payloads of tickets 0..n-1 of its queue in claim order, each once, each sent before received; no_lost_event_wakeup - (no send has returned false, handler not killed) oldest unreceived event '
+                  'committed => a sender is still between that send and the return of its fibre_run_atomic, or the handler is pending, or it is running before its final emptiness check; '
+                  'wakeup_with_isr (C03) - at the final messageq_empty check an outstanding accepted request makes get_next_wakeup compute kernel.now, which is the value returned. '
+                  'The executable runner (interrupt scripts at numbered gaps, nesting, thread senders, quiescent run) is proved to pass only through reachable states, and without thread senders only through '
+                  'states in which no sender is inside a call (handlers run to completion).',
+    'level_note': 'NOT proved, only checked on every run by the correspondence (sampling + small exhaustive scopes, never called proof): the liveness bound (def dispatch_within_runq_passes; only the FIFO shape lemma '
+                  'dispatch_within_runq_passes_partial is proved) - the monitor\'s `starved` verdict (a request outstanding at the beginning of nf complete undisturbed passes) checks it on the real code; '
+                  'that the abstract monitor (event FIFO by claim instant, oversleeps, starved) never complains about the MODEL is not a theorem - it is evaluated on the real code\'s output of every history; '
+                  'sortedness of the timer queue under interrupts (C02\'s time-window scope; interrupts never touch it: senders_leave_scheduler_alone). '
+                  'Events are FIFO in CLAIM order (C04); that is the order of the sends whenever claim..send sections do not overlap. '
+                  'Trusted: Lean kernel (standard axioms, no bv_decide); the hand model, validated on every run against the real code: identical output (dispatch order, fibre_self, returned wake-up, every boolean, '
+                  'processed stamps, number of atomic operations of every call - so model and code agree on the numbering of gaps) on all histories generated, and the Lean monitor on the real code\'s output. '
+                  'Generated: exhaustively every placement of 1 interrupt call (+1 nested call at every gap of it; pairs on 3 of 7 base scenarios in the quick tier, pairs everywhere and triples on 2 in the thorough tier) '
+                  'at every gap <k>a/<k>b of every main-context call of 7 base scenarios (handler+events, atomic queue holding 7 and 8 entries, lone yielder, sleeper, killed handler, event queue of depth 1), plus seeded random '
+                  'histories (up to 3 calls per main-context call, depth-2 nesting, queue filled to 6-9 entries, thread items). Free-running threads appear only in the restricted form "the main context executes whole calls '
+                  'at a gap of a sender" (enough to expose fibre_eventq_send posting the wake-up before the event, and fibre_run_atomic sending before storing - neither is observable when handlers run to completion); '
+                  'true concurrent executions are C04\'s and C07\'s harnesses and are not repeated here. fibre_kill is observed at its return (a request accepted between its last receive and its return is treated as withdrawn). '
+                  'Sequential consistency assumed (C07). console_putchar (console.c:184) is ring put + this fibre_run_atomic path; its harness is C15\'s.',
     'design_ref': '§6 C06 (+ §6 C03 ext wakeup_with_isr)',
 }
-REQUIRED = []
+REQUIRED = ['Librfn.C06.' + t for t in (
+    'accepted_never_lost', 'held_entry_joins_runq', 'history_accepted_never_lost', 'queues_not_corrupted', 'senders_leave_scheduler_alone',
+    'queues_satisfy_mq_inv', 'drained_by_pass', 'drain_leaves_nothing', 'drain_leaves_nothing_quiet', 'fast_path_not_taken',
+    'events_exactly_once_in_order', 'event_carries_its_senders_stamp', 'no_lost_event_wakeup', 'no_lost_event_wakeup_isr',
+    'wakeup_with_isr', 'wake_value_is_returned', 'wakeup_with_isr_quiet', 'history_reachable', 'history_interrupt_only', 'interrupts_run_to_completion')]
 
 NFMAX = 8
 
